@@ -965,10 +965,12 @@ def run_resplit(R, r, n):
     is replaced as a whole by a value of the same total size that divides it differently; the element is then read and
     written through a view of it that was obtained before the replacement (views cache the offsets of dynamic parts)."""
     xo = common.import_xobjects()
-    for _ in range(n):
+    forced = [("items", True, True), ("strings", True, True), ("items", True, False), ("arrays", True, False)]
+    for it_ in range(n + len(forced)):
         uid = next(_rs_uid)
         cache = {}
-        kind = r.choice(["arrays", "strings", "items"])
+        f_kind, f_own, f_spare = forced[it_] if it_ < len(forced) else (None, None, None)     # always-run corpus of the own-handle cases
+        kind = f_kind or r.choice(["arrays", "strings", "items"])
         la, lb = r.sample([0, 1, 2, 3, 5], 2)
         if kind == "arrays":
             X = ("array", ("scalar", r.choice([2, 0, 4])), [None], [0])
@@ -1009,22 +1011,58 @@ def run_resplit(R, r, n):
             kept = [nav(h, path) for h in (obj, view)]
             _vs1, arg1 = vsexp(inner, v1, cache, "py")
             h = r.choice([obj, view])
-            if r.random() < 0.4:
+            if f_own or (f_own is None and r.random() < 0.4):
                 # the replacement goes through a handle of the ELEMENT itself (also: a stand-alone element): that very handle must
                 # read the new value afterwards (its own cached offsets included) - this is not the known finding O-30
                 own = nav(h, path) if r.random() < 0.7 else T.build(inner, cache)(vsexp(inner, v0, cache, "py")[1], _buffer=buf)
                 src = T.build(inner, cache)(arg1, _buffer=r.choice([buf, xo.ContextCpu().new_buffer(64)]))
                 # a struct takes another division only from an INSTANCE (binary copy); plain data is assigned field by field and a
                 # dynamic field cannot change its size; an array re-plans its items from plain data too
-                own._update(arg1 if kind == "items" and r.random() < 0.5 else src)
+                want_own = expect_str(inner, v1, cache)
+                # a COPY of the element made before the update must not be affected by it (C09), nor must a copy made from the copy
+                try:
+                    cp_before = T.build(inner, cache)(own, _buffer=r.choice([buf, xo.ContextCpu().new_buffer(64)]))
+                    cp_val = deep_str(inner, cp_before, cache)
+                except Exception:
+                    cp_before = None
+                if kind != "arrays" and (f_spare or (f_spare is None and r.random() < 0.5)):
+                    # the source is NOT minimally packed: one of its strings was overwritten in place by a shorter text and keeps
+                    # its spare room, so the copied bytes are not the compact layout a plan for that value would give
+                    try:
+                        if kind == "items":
+                            src[0] = "c"
+                        else:
+                            src.f0 = "c"
+                        want_own = deep_str(inner, src, cache)
+                        R.tags["resplit.own-handle.source-with-spare-room"] += 1
+                    except Exception:
+                        pass
+                    own._update(src)
+                else:
+                    own._update(arg1 if kind == "items" and r.random() < 0.5 else src)
                 R.tags["resplit.own-handle"] += 1
                 try:
                     seen = deep_str(inner, own, cache)
                 except Exception as ex:
                     seen = "EXC " + type(ex).__name__ + " " + str(ex)[:60]
-                if seen != expect_str(inner, v1, cache):
+                try:
+                    fresh_own = deep_str(inner, type(own)._from_buffer(own._buffer, int(own._offset)), cache)
+                except Exception as ex:
+                    fresh_own = "EXC " + type(ex).__name__
+                if cp_before is not None:
+                    try:
+                        cp_now = deep_str(inner, cp_before, cache)
+                    except Exception as ex:
+                        cp_now = "EXC " + type(ex).__name__ + " " + str(ex)[:60]
+                    if cp_now != cp_val:
+                        R.fail("C09:write-shows-through", f"{sx[:200]}: a copy of the element made BEFORE `x._update(value of the same size, other "
+                               f"division)` reads {cp_now[:120]} afterwards, it held {cp_val[:120]}", ctx)
+                if seen != fresh_own:
+                    R.fail("C06:handle-differs-from-view", f"{sx[:200]}: after x._update(instance of the same size) the handle x reads {seen[:120]}, a "
+                           f"view rebuilt from (buffer, offset) reads {fresh_own[:120]}", ctx)
+                if seen != want_own:
                     R.fail("C10:own-handle-stale", f"{sx[:200]}: x = the element {pstr(path)} (or a stand-alone {T.sexp(inner)[:80]}); x._update(value of the "
-                           f"same size, other division): x reads {seen[:120]}, the assigned value is {expect_str(inner, v1, cache)[:120]}", ctx)
+                           f"same size, other division): x reads {seen[:120]}, the assigned value is {want_own[:120]}", ctx)
                 continue
             # an existing object of the element's type (a dictionary / list would be assigned part by part)
             nav_set(h, path, T.build(inner, cache)(arg1, _buffer=r.choice([buf, xo.ContextCpu().new_buffer(64)])))
